@@ -24,7 +24,7 @@ ASSUMPTIONS = [
     'param.random_seed is left at its default; times are ints or Fractions (floats are cast with a warning)',
     'the global Dynamic.time_fn Time instance is used (each shard is its own process; state restored per case)',
 ]
-REQUIRED = {'strict_time_contexts': 10, 'clock_tree_reads': 300, 'reads': 3000, 'revisit_reads': 500, 'inspections': 300, 'contexts': 100, 'pushpops': 100, 'reads_raised': 20,
+REQUIRED = {'late_time_dependence_reads': 50, 'strict_time_contexts': 10, 'clock_tree_reads': 300, 'reads': 3000, 'revisit_reads': 500, 'inspections': 300, 'contexts': 100, 'pushpops': 100, 'reads_raised': 20,
             'sampled_reads': 100, 'sampled_cross_checks': 20,
             'class_level_generator_sets': 50, 'pushpops_through_holder': 50}
 
@@ -226,6 +226,42 @@ def strict_time_case(idx, rng, P, rep, param, ng):
     rep.case(('strict-time',), True)
 
 
+def late_time_dependence_case(idx, rng, P, rep, param, ng, T):
+    """Generators declared (with a name and a seed) as class-level defaults while time dependence is still switched off; the
+    class is instantiated, and only then are the streams locked to the clock. From then on every instance, and a generator
+    made directly with the same name and seed, agree at every time, in whatever order the times are visited."""
+    kind = rng.choice(['UniformRandom', 'NormalRandom', 'UniformRandomInt'])
+    seed = rng.randint(1, 99)
+    gname = f'late{idx}'
+    param.Dynamic.time_dependent = False
+    Host = type(f'LH{idx}', (param.Parameterized,), dict(x=param.Number(default=getattr(ng, kind)(name=gname, seed=seed))))
+    hosts = [Host() for _ in range(rng.randint(2, 3))]
+    if rng.random() < 0.5:
+        [h.x for h in hosts]            # (the streams may have been used freely before)
+    how = rng.choice(['attribute', 'set_dynamic_time_fn'])
+    param.Dynamic.time_dependent = True
+    for h in hosts:
+        if how == 'set_dynamic_time_fn':
+            h.param.set_dynamic_time_fn(T)
+        h.param.get_value_generator('x').time_dependent = True
+    ref = getattr(ng, kind)(name=gname, seed=seed, time_dependent=True)
+    desc = dict(kind='late-time-dependence', generator=kind, how=how, instances=len(hosts))
+    table = {}
+    for _ in range(rng.randint(5, 10)):
+        t = rng.randint(0, 6)
+        T(t)
+        vals = [h.x for h in hosts]
+        rep.count('reads', len(hosts))
+        rep.count('late_time_dependence_reads', len(hosts))
+        want = table.setdefault(t, ref())
+        if any(v != want for v in vals) or any(h.x != v for h, v in zip(hosts, vals)):
+            rep.violation('C19/value-not-function-of-time/streams-locked-to-the-clock-after-instantiation',
+                          f'at time {t} the instances read {vals}; a generator named {gname!r} with seed {seed} gives {want!r} '
+                          f'(earlier visits: {table})', case=desc)
+            break
+    rep.case(('late-time-dependence', kind, how), True)
+
+
 def run_case(idx, rng, P, rep):
     param, ng = _st['param'], _st['ng']
     T = param.Dynamic.time_fn
@@ -238,6 +274,8 @@ def run_case(idx, rng, P, rep):
             clock_tree_case(idx, rng, P, rep, param, ng)
         elif rng.random() < 0.04:
             strict_time_case(idx, rng, P, rep, param, ng)
+        elif rng.random() < 0.04:
+            late_time_dependence_case(idx, rng, P, rep, param, ng, T)
         else:
             _run(idx, rng, P, rep, param, ng, T, use_frac)
     finally:
